@@ -7943,9 +7943,12 @@ func (p *Parser) closureAfterArrow(firstSpan *position.Location, params []ast.Pa
 	var location *position.Location
 	arrowTok, ok := p.matchOk(token.THIN_ARROW, token.WIGGLY_ARROW)
 	if !ok {
+		// matchOk returns a nil token on a mismatch
+		p.errorExpected("`->` or `~>`")
+		errTok := p.advance()
 		return ast.NewInvalidNode(
-			arrowTok.Location(),
-			arrowTok,
+			errTok.Location(),
+			errTok,
 		)
 	}
 	lambda := arrowTok.Type == token.WIGGLY_ARROW
